@@ -201,6 +201,7 @@ pub struct Shards {
     pub bytes: u64,
     prop: String,
     build: String,
+    keep_every: u64,
 }
 impl Shards {
     pub fn create(dir: &Path, prop: &str, n: usize, build: &str) -> std::io::Result<Self> {
@@ -209,7 +210,11 @@ impl Shards {
         for k in 0..n.max(1) {
             files.push(BufWriter::with_capacity(1 << 20, File::create(dir.join(format!("{prop}-{k:02}.ndjson")))?));
         }
-        Ok(Self { files, next: 0, events: 0, bytes: 0, prop: prop.to_string(), build: build.to_string() })
+        Ok(Self { files, next: 0, events: 0, bytes: 0, prop: prop.to_string(), build: build.to_string(), keep_every: 1 })
+    }
+    /// thin the trace: keep one event in `k` (events are independent samples; ids stay those of the full trace)
+    pub fn set_keep_every(&mut self, k: u64) {
+        self.keep_every = k.max(1);
     }
     pub fn set_prop(&mut self, p: &str) {
         self.prop = p.to_string();
@@ -217,6 +222,9 @@ impl Shards {
     /// `body` is the inside of a JSON object WITHOUT braces, e.g. `"ev":"dec","n":8`
     pub fn emit(&mut self, body: &str) {
         self.events += 1;
+        if self.keep_every > 1 && self.events % self.keep_every != 1 {
+            return;
+        }
         let line = format!("{{\"id\":{},\"p\":\"{}\",\"b\":\"{}\",{}}}\n", self.events, self.prop, self.build, body);
         self.bytes += line.len() as u64;
         let k = self.next;
